@@ -82,6 +82,9 @@ type C16Spec struct {
 	// goroutine's programme in a fresh child process of its own (one per
 	// goroutine) instead of in the process that also runs the goroutines
 	Pristine bool `json:"pristine_reference,omitempty"`
+	// Tall: the first Tall goroutines also own one table of c16TallRows rows
+	// (renderers may treat big tables differently), rendered as texttable only
+	Tall int `json:"tall_tables,omitempty"`
 }
 
 // what the worker process reads on stdin
@@ -127,7 +130,11 @@ var c16Atoms = []string{"", "a", "é", "x|y", "<b>&amp;</b>", "line1\nline2", `"
 
 // short texts that many goroutines' tables have in common, as plain strings
 // and as single-line items that declare a display width of their own
-var c16Shared = []string{"yes", "no", "-", "0", "n/a", "ok", "total", "12.5"}
+// Two classes matter for width measurement and are both in the pool: texts with
+// an emoji presentation selector (U+FE0F) and texts with East-Asian-ambiguous
+// characters (accented Latin, ± ° × §, Greek, Cyrillic, box drawing).
+var c16Shared = []string{"yes", "no", "-", "0", "n/a", "ok", "total", "12.5",
+	"\u26a0\ufe0f degraded", "\u2714\ufe0f ok", "\u2764\ufe0f", "caf\u00e9", "\u00b15 \u00b0C", "na\u00efve \u00a74 \u00d72", "\u03b1\u03b2\u03b3", "\u041f\u0440\u0438\u0432\u0435\u0442", "\u2500\u2502\u253c"}
 
 func c16Item(r *RNG) ItemSpec {
 	switch r.Intn(16) {
@@ -461,6 +468,23 @@ func c16Render(t tabular.Table, f string) string {
 	return o.Kind + "\x00" + string(o.Out)
 }
 
+const c16TallRows = 1100
+
+// c16TallTable: three columns whose cell widths vary and grow down the table,
+// a separator every 97 rows.
+func c16TallTable(g int) tabular.Table {
+	t := tabular.New()
+	t.AddHeaders("n", "name", "note")
+	for i := 0; i < c16TallRows; i++ {
+		if i%97 == 96 {
+			t.AddSeparator()
+			continue
+		}
+		t.AddRowItems(i*(g+3), strings.Repeat("x", (i*5)%29+i/64), strings.Repeat("\u00e9-", (i*7)%11+i/128))
+	}
+	return t
+}
+
 func c16WantsDecorations(spec C16Spec) bool {
 	if len(spec.Formats) == 0 {
 		return true
@@ -502,6 +526,13 @@ func c16RunProgramme(spec C16Spec, g int, prog []c16Tab, names, formats []string
 		}
 		out = append(out, c16Errors(t))
 		labels = append(labels, fmt.Sprintf("table %d errors held at the end", k))
+	}
+	if g < spec.Tall && c16WantsDecorations(spec) {
+		t := c16TallTable(g)
+		for _, f := range []string{"texttable:" + names[g%len(names)], "auto:" + names[(g+1)%len(names)]} {
+			out = append(out, c16Render(t, f))
+			labels = append(labels, fmt.Sprintf("tall table (%d rows) format %s", c16TallRows, f))
+		}
 	}
 	return out, labels
 }
@@ -811,10 +842,12 @@ func c16Exec(in c16WorkerIn, procs int) (stdout []byte, stderr string, exit int)
 }
 
 // c16PristineRefs: every goroutine's programme in a fresh process of its own
-// (a few at a time).  A programme that cannot even run alone is not a finding
-// of this property: the harness stops (exit 2).
-func c16PristineRefs(spec C16Spec) [][]string {
-	refs := make([][]string, spec.G)
+// (a few at a time).  A race report from such a process (the library's own
+// goroutines inside one render) is a finding like any other; a process that
+// dies without output is reported as a crash.
+func c16PristineRefs(spec C16Spec) (refs [][]string, raceReport, crashReport string) {
+	refs = make([][]string, spec.G)
+	races := make([]string, spec.G)
 	fails := make([]string, spec.G)
 	var wg sync.WaitGroup
 	sem := make(chan struct{}, 8)
@@ -824,39 +857,53 @@ func c16PristineRefs(spec C16Spec) [][]string {
 			defer wg.Done()
 			sem <- struct{}{}
 			defer func() { <-sem }()
-			so, se, exit := c16Exec(c16WorkerIn{Spec: spec, Mode: "solo", Solo: g}, 2)
+			procs := 2
+			if spec.Tall > 0 && spec.Procs > procs {
+				procs = spec.Procs
+			}
+			so, se, exit := c16Exec(c16WorkerIn{Spec: spec, Mode: "solo", Solo: g}, procs)
 			var out c16SoloOut
-			if exit != 0 || json.Unmarshal(so, &out) != nil || len(out.Outs) == 0 {
-				fails[g] = fmt.Sprintf("goroutine %d's programme alone: exit %d: %s", g, exit, clip(se, 1500))
+			if strings.Contains(se, "WARNING: DATA RACE") || exit == 66 {
+				races[g] = fmt.Sprintf("goroutine %d's programme ALONE in a process of its own:\n%s", g, se)
+			}
+			if json.Unmarshal(so, &out) != nil || len(out.Outs) == 0 || (exit != 0 && exit != 66) {
+				fails[g] = fmt.Sprintf("goroutine %d's programme alone in a process of its own: exit %d: %s", g, exit, clip(se, 1500))
 				return
 			}
 			refs[g] = out.Outs
 		}(g)
 	}
 	wg.Wait()
-	for _, f := range fails {
-		if f != "" {
-			panic("C16: solo reference process failed: " + f)
+	for g := range refs {
+		if races[g] != "" && raceReport == "" {
+			raceReport = races[g]
+		}
+		if fails[g] != "" && crashReport == "" {
+			crashReport = fails[g]
 		}
 	}
-	return refs
+	return refs, raceReport, crashReport
 }
 
 func c16Child(spec C16Spec) (obs c16Obs) {
 	in := c16WorkerIn{Spec: spec, Mode: "run"}
+	soloRace, soloCrash := "", ""
 	if spec.Pristine {
-		in.Ref = c16PristineRefs(spec)
+		in.Ref, soloRace, soloCrash = c16PristineRefs(spec)
+		if soloCrash != "" {
+			return c16Obs{Crashed: true, Race: soloRace != "", Report: clip(soloCrash+"\n"+soloRace, 6000)}
+		}
 	}
 	so, stderr, exit := c16Exec(in, spec.Procs)
 	obs.ExitCode = exit
-	obs.Race = strings.Contains(stderr, "WARNING: DATA RACE") || obs.ExitCode == 66
+	obs.Race = strings.Contains(stderr, "WARNING: DATA RACE") || obs.ExitCode == 66 || soloRace != ""
 	var res C16Result
 	if json.Unmarshal(so, &res) == nil && len(res.Rows) > 0 {
 		obs.Result = &res
 	}
 	obs.Crashed = obs.Result == nil || (obs.ExitCode != 0 && obs.ExitCode != 66)
 	if obs.Race || obs.Crashed {
-		obs.Report = clip(stderr, 6000)
+		obs.Report = clip(soloRace+stderr, 6000)
 	}
 	return obs
 }
@@ -919,7 +966,7 @@ func c16RunCase(spec C16Spec) CaseOut {
 	tags := append([]string{"kind=run", fmt.Sprintf("goroutines=%d", spec.G), fmt.Sprintf("gomaxprocs=%d", spec.Procs),
 		fmt.Sprintf("readers=%d", spec.Readers), fmt.Sprintf("tables-per-goroutine=%d", spec.Tables), "formats=" + fclass,
 		fmt.Sprintf("every-table-in-every-format=%v", spec.Full), fmt.Sprintf("cold-start=%v", spec.ColdFirst), fmt.Sprintf("reference-in-own-process=%v", spec.Pristine),
-		fmt.Sprintf("race=%v", obs.Race), fmt.Sprintf("race-detector=%v", obs.RaceDetect)}, outcomeTags...)
+		fmt.Sprintf("tall-tables=%d", spec.Tall), fmt.Sprintf("race=%v", obs.Race), fmt.Sprintf("race-detector=%v", obs.RaceDetect)}, outcomeTags...)
 	if obs.Result != nil && obs.Result.ErrTables > 0 {
 		tags = append(tags, "tables-recording-errors")
 	}
@@ -928,7 +975,7 @@ func c16RunCase(spec C16Spec) CaseOut {
 		Desc:       obs,
 		Size:       spec.G*spec.Tables*spec.Iters*(1+spec.MaxRows*spec.MaxCells) + spec.Readers,
 		Tags:       tags,
-		Key:        fmt.Sprintf("%d/%d/%d/%d/%d/%d/%s/%v/%v/%s", spec.Seed, spec.G, spec.Procs, spec.Tables, spec.Iters, spec.Readers, fclass, spec.ColdFirst, spec.Pristine, obs.Sig),
+		Key:        fmt.Sprintf("%d/%d/%d/%d/%d/%d/%s/%v/%v/%s", spec.Seed, spec.G, spec.Procs, spec.Tables, spec.Iters, spec.Readers, fclass, spec.ColdFirst, spec.Pristine, obs.Sig) + fmt.Sprintf("/tall%d", spec.Tall),
 		Nontrivial: spec.G >= 2 && renders > 0,
 	}
 }
@@ -1014,6 +1061,14 @@ func c16Shrink(raw json.RawMessage) []json.RawMessage {
 		c.Readers = 0
 		add(c)
 	}
+	if s.Tall > 0 {
+		c := s
+		c.Tall = 0
+		add(c)
+		c = s
+		c.Tables, c.Iters, c.MaxRows, c.MaxCells = 1, 1, 1, 1 // the tall tables and little else
+		add(c)
+	}
 	if s.MaxRows > 1 {
 		c := s
 		c.MaxRows /= 2
@@ -1048,7 +1103,7 @@ func init() {
 		Rule: "one case is the shared-state inventory of the repository's source (every package-level var of every non-test package and every post-init write, address-of, append destination or pointer-receiver call on one; accesses to the fields of mutex-carrying variables - registry.table - with their lock status: lexically between Lock and Unlock of the variable's own mutex, exclusive lock for mutations, or in an unexported helper all of whose call sites are so locked), judged by shared_ok; " +
 			"assumed of the standard library: sync and sync/atomic types synchronise, and the methods of *strings.Replacer and of *regexp.Regexp (except Longest) are safe for concurrent use as documented, so calls of them on package-level variables are not counted as mutation; " +
 			"every other case is one child process under the race detector: 8-64 goroutines that each build their own tables (1-6 columns, 0-6 rows, separators, multi-line / markup / non-ASCII / non-string items, alignment and skipable column properties, built by AddRowItems, NewRow+AddRow, NewRowSizedFor) and render each in csv, json, markdown, html (plain; Id/Class/Caption/TemplateName/row-class generator, rendered twice through the wrapper's cached template), texttable (default decoration, an unknown name, RenderTo) plus the registered decorations by name / by value and auto.Render for the listed styles - all of them for every table in the cases tagged every-table-in-every-format=true, otherwise a third / a quarter per table rotating with (goroutine, table) so that every run still renders every decoration and style concurrently - " +
-			"while 1-8 reader goroutines call RegisteredDecorationNames / Named / auto.ListStyles. Every goroutine's first actions after the start barrier are the same lookups of the six built-in decoration names and renders of a tiny table in each. Cells draw on a small pool of short texts shared by all goroutines, as plain strings and as single-line items declaring a wider display width; some cells hold +Inf/-Inf (encoding/json refuses them part-way down the table); a quarter of the tables record errors (a cell added to a separator row; a render-time callback failing three times) and what t.Errors() and every row's Errors() hold - count, order, and for the harness's own errors their per-table tag - is compared after the first render and at the end; a third of the tables are, between renders, rendered into destinations that fail after 0-51 bytes. " +
+			"while 1-8 reader goroutines call RegisteredDecorationNames / Named / auto.ListStyles. Every goroutine's first actions after the start barrier are the same lookups of the six built-in decoration names and renders of a tiny table in each. Cells draw on a small pool of short texts shared by all goroutines, as plain strings and as single-line items declaring a wider display width; some cells hold +Inf/-Inf (encoding/json refuses them part-way down the table); a quarter of the tables record errors (a cell added to a separator row; a render-time callback failing three times) and what t.Errors() and every row's Errors() hold - count, order, and for the harness's own errors their per-table tag - is compared after the first render and at the end; a third of the tables are, between renders, rendered into destinations that fail after 0-51 bytes; the shared text pool holds texts with an emoji presentation selector (U+FE0F) and texts with East-Asian-ambiguous characters; in a fifth of the cases (GOMAXPROCS >= 2) one or two goroutines also own a 1100-row table rendered as texttable. " +
 			"Reference ('rendered alone'): the same programmes run alone in the same process, twice (before the goroutines in warm cases; in cold cases - half - after them, and then the process does not touch the library or the registry before the goroutines do: built-in names are constants, readers check their own first answers against the registry afterwards); in a third of the cases (8-12 goroutines) each goroutine's reference is instead computed in a pristine child process of its own and the same-process solo run is the correspondence side. Goroutine count, GOMAXPROCS (1..16), tables, iterations vary by seed. " +
 			"A case is non-trivial when at least two goroutines rendered concurrently; distinct = distinct (seed, goroutines, GOMAXPROCS, tables, iterations, readers, formats, outcome)",
 		Exhaustive: "",
@@ -1089,6 +1144,13 @@ func init() {
 				}
 				s.ColdFirst = i%2 == 1
 				s.Pristine = pristine
+				if i%5 == 2 {
+					// one or two goroutines also own a tall table
+					s.Tall = 1 + i%2
+					if s.Procs < 2 {
+						s.Procs = 4
+					}
+				}
 				out = append(out, mustJSON(s))
 			}
 			// the inventory case comes last: it has been running in the background meanwhile
